@@ -8,6 +8,12 @@ SHADOW = False
 
 def generate(rng, tier="quick"):
     cfg = gen.gen_base_config(rng)
+    q = gen.order_of(cfg["psets"][0]["group"])
+    if q <= 64 and rng.random() < 0.4:
+        # tiny groups: walk ALL pairs of secret scalars along the run index
+        idx = getattr(rng, "idx", rng.randrange(1 << 20))
+        cfg["nodes"][0]["entropy"] = {"mode": "target", "v": str(idx % q), "seed": rng.randrange(1 << 30)}
+        cfg["nodes"][1]["entropy"] = {"mode": "target", "v": str((idx // q) % q), "seed": rng.randrange(1 << 30)}
     pc = rng.choice([0.0, 0.3, 0.5, 0.8])
     maxc = rng.choice([1, 2, 3, 6])
     # in some runs a "crash" is the death of the whole process (fresh copy of the library
